@@ -237,10 +237,53 @@ Theorem C16_config_v1_nil_guard_necessary :
 Proof. exact v1_nil_guard_necessary. Qed.
 Print Assumptions C16_config_v1_nil_guard_necessary.
 
+(* A document that is a bare JSON value — null, true, 0, "", [] — (legal JSON, so "well-formed but
+   unexpected") is rejected: the configuration in force stays, and every lookup answers as before it. *)
+Theorem C16_config_bare_document_rejected : forall b cur account pubkey,
+  decode true (DBare b) = Err CEDecode /\
+  refresh true cur (DBare b) = cur /\
+  lookup true (refresh true cur (DBare b)) account pubkey = lookup true cur account pubkey.
+Proof.
+  intros b cur a k. split; [apply bare_rejected|]. apply bare_keeps_previous.
+Qed.
+Print Assumptions C16_config_bare_document_rejected.
+
+(* What the decoder accepts is never a nil pointer inside the configurator interface (the one value
+   the `== nil` tests of fetchExecutionConfig and ProposerConfig cannot see). *)
+Theorem C16_config_accepted_never_nil : forall d, decode true d <> Ok CNilV1.
+Proof. exact (decode_never_nil true). Qed.
+Print Assumptions C16_config_accepted_never_nil.
+
+(* Decoding into a struct value is what makes that so.  A decoder that lets encoding/json allocate
+   the configuration behaves identically on every document but one: `null` is accepted as the nil
+   pointer, installed over whatever configuration there was, and then every lookup of every
+   validator panics; the decoder as it is leaves the answers unchanged. *)
+Theorem C16_config_by_value_necessary :
+  (forall g d c, decode_gen g false d = Ok c -> c = CNilV1 \/ decode_gen g true d = Ok c) /\
+  (forall g d, decode_gen g false d = Ok CNilV1 <-> d = DBare BNull) /\
+  (forall g cur a k, lookup true (refresh_gen g false cur (DBare BNull)) a k = Panic) /\
+  (forall g cur a k, lookup true (refresh_gen g true cur (DBare BNull)) a k = lookup true cur a k).
+Proof. exact by_value_necessary. Qed.
+Print Assumptions C16_config_by_value_necessary.
+
+(* The validator registration round that follows a refresh (the other user of the configuration in
+   force; it runs in a goroutine of its own, where a panic ends the process) completes after every
+   history of documents; with the allocating decoder it is the round after `null` that panics. *)
+Theorem C16_config_registration_no_panic : forall ds,
+  is_ok (registration_round (refresh_all true None ds)) = true.
+Proof. exact registration_no_panic. Qed.
+Print Assumptions C16_config_registration_no_panic.
+
+Theorem C16_config_registration_by_value_necessary : forall g cur,
+  registration_round (refresh_gen g false cur (DBare BNull)) = Panic /\
+  registration_round (refresh_gen g true cur (DBare BNull)) = registration_round cur.
+Proof. exact registration_by_value_necessary. Qed.
+Print Assumptions C16_config_registration_by_value_necessary.
+
 Example C16_config_example :
   let good := DV2 {| d2_fields_ok := true; d2_relays := [(1, false)];
                      d2_proposers := [Some {| pp_key := PKValidator 2; pp_reset := false; pp_relays := [{| prl_addr := 3; prl_entry := Some false |}] |}] |} in
-  let c := refresh_all true None [good; null_relay_doc; DMalformed; null_prelay_doc] in
+  let c := refresh_all true None [good; null_relay_doc; DMalformed; DBare BNull; null_prelay_doc; DBare BValue] in
   c = refresh_all true None [good] /\ lookup true c 1 2 = Ok [1; 3] /\ lookup true c 1 9 = Ok [1].
 Proof. vm_compute. repeat split; reflexivity. Qed.
 
